@@ -75,7 +75,18 @@ def run(run, P):
                     consts.add(K)
         seps = sorted(consts - {ord('%')})
         run.require(ord('%') in consts and seps, 'R-URI-CLASS: %s() no longer writes an escape character and a separator through its cursor' % recon)
-        U = [c for c in range(256) if call(P, pred, [c])]
+        # what the reconstruction really copies unescaped: one abstract iteration of its filling loop per byte value (a byte is unescaped when
+        # exactly one byte is stored for it); falls back to the predicate alone when the function has no recognisable filling loop
+        U = None
+        try:
+            from rules import r_sizefill
+            fills = [l for l in r_sizefill.classify(P, f) if l[1] == 'fill']
+            if len(fills) == 1:
+                U = [c for c in range(256) if r_sizefill.iterate(P, f, fills[0], c) == 1]
+        except (Unfold, KeyError):
+            U = None
+        if U is None:
+            U = [c for c in range(256) if call(P, pred, [c])]
         run.stats['unescaped_set[%s]' % pred] = len(U)
         run.instance('R-URI-CLASS', '%s: %d unescaped byte values; reconstruction %s writes separator(s) %s' % (pred, len(U), recon, ''.join(chr(c) for c in seps)))
         for ch in seps + [ord('%')]:
